@@ -638,8 +638,8 @@ func (e *Extractor) extractSuffixes(re *syntax.Regexp, depth int) *Seq {
 				continue
 			}
 
-			// Can only extend with literal sub-expressions
-			if sub.Op != syntax.OpLiteral {
+			// Can only extend with exact (not case-folded) literal sub-expressions
+			if sub.Op != syntax.OpLiteral || sub.Flags&syntax.FoldCase != 0 {
 				// Non-literal encountered: mark all suffixes as incomplete and stop
 				lits := make([]Literal, suffixes.Len())
 				for j := 0; j < suffixes.Len(); j++ {
